@@ -4,7 +4,7 @@ set -u
 P="$1"
 export GOFLAGS=-mod=mod GOPROXY=off GOSUMDB=off GOTOOLCHAIN=local GOWORK=off
 cd /repo || exit 2
-if [ -n "$(git status --porcelain)" ]; then echo "/repo not clean"; exit 2; fi
-git apply "$P" || { echo "patch does not apply"; exit 2; }
+if [ -n "$(git status --porcelain)" ]; then echo "ERROR /repo not clean"; exit 2; fi
+git apply "$P" || { echo "ERROR patch does not apply"; exit 2; }
 /verif/bin/mowcheck -repo /repo -rules all | grep -v '^discharged' | grep -v 'VAL-4 *values.setMultivalued:Clear-before-validation' | grep -v 'FSM-8 .*\(env-fallback\|non-consuming\)\]'
-git checkout -- . ; git status --porcelain
+git checkout -- . ; git clean -fdq; git status --porcelain
